@@ -451,6 +451,7 @@ func (fc *FuncCtx) readGlobal(st *State, gv *types.Var) Term {
 // bindGlobals makes the package-level variables of the contract's package visible by name.
 func (fc *FuncCtx) bindGlobals(st *State, env *CEnv, c *Contract) {
 	st0 := st
+	env.globalOf = func(gv *types.Var) (Term, bool) { return fc.readGlobal(st0, gv), true }
 	env.lookup = func(name string) (Term, bool) {
 		var scopes []*types.Scope
 		if c != nil && c.Pkg != nil {
